@@ -104,12 +104,15 @@ theorem delayed_only_recorded (s : St) (c seq ph : Nat) (d : RecvData)
     (h : (recvPacket s c seq ph d).2 = .async) :
     (recvPacket s c seq ph d).1.bal = s.bal ∧ (recvPacket s c seq ph d).1.acks = s.acks ∧
     (recvPacket s c seq ph d).1.log = s.log := by
-  unfold recvPacket at h ⊢
-  by_cases hc : s.receipts.contains (c, seq) = true
-  · rw [if_pos hc] at h
-    exact absurd h (by simp)
-  · rw [if_neg hc] at h ⊢
-    exact recvAuth_async h
+  rcases recvPacket_cases s c seq ph d with e | e
+  · rw [e] at h; cases h
+  · rw [e] at h ⊢
+    unfold recvOpen at h ⊢
+    by_cases hc : s.receipts.contains (c, seq) = true
+    · rw [if_pos hc] at h
+      exact absurd h (by simp)
+    · rw [if_neg hc] at h ⊢
+      exact recvAuth_async h
 
 /-- a rejected message leaves the whole state untouched -/
 theorem rejected_unchanged (s : St) (o : Op) (e : Err) (h : (step s o).2 = .err e) : (step s o).1 = s := by
@@ -169,7 +172,9 @@ theorem chanRollapp_congr {s s0 : St} (c : Nat) (h1 : s0.chans = s.chans) (h2 : 
 theorem non_rollapp_never_delayed_recv (s : St) (c seq ph : Nat) (d : RecvData)
     (hc : chanRollapp s c = .ok none) :
     (recvPacket s c seq ph d).2 ≠ .async ∧ (recvPacket s c seq ph d).1.packets = s.packets := by
-  unfold recvPacket
+  rcases recvPacket_cases s c seq ph d with e | e <;> rw [e]
+  · exact ⟨by simp, rfl⟩
+  unfold recvOpen
   split
   · exact ⟨by simp, rfl⟩
   · unfold recvAuth
@@ -191,8 +196,9 @@ theorem non_rollapp_never_delayed_recv (s : St) (c seq ph : Nat) (d : RecvData)
 
 theorem non_rollapp_never_delayed_ack (s s' : St) (c seq ph : Nat) (isTimeout isErr : Bool)
     (hc : chanRollapp s c = .ok none)
-    (h : ackPacket s c seq ph isTimeout isErr = .ok (some s')) : s'.packets = s.packets := by
-  unfold ackPacket at h
+    (h0 : ackPacket s c seq ph isTimeout isErr = .ok (some s')) : s'.packets = s.packets := by
+  have h := ackPacket_ok h0
+  unfold ackOpen at h
   split at h
   · cases h
   · split at h
@@ -344,6 +350,89 @@ theorem finalize_removes_own_index_entry (s s' : St) (k : Bytes) (p : Packet)
       show (delByAddr (logRelease (releaseEffect s p).1 p (some p.rollappId) true) p.target (pkey p)).byAddr = _
       simp only [delByAddr, logRelease]
       rw [(frame_releaseEffect s p).byAddr]
+
+-- ================================================================== finalization when the ack cannot be written
+
+theorem closed_sendCoins {s s' : St} {a b d v} (h : sendCoins s a b d v = some s') : s'.closed = s.closed ∧ s'.acks = s.acks := by
+  unfold sendCoins at h
+  split at h
+  · cases h; exact ⟨rfl, rfl⟩
+  · split at h
+    · cases h
+    · cases h; exact ⟨rfl, rfl⟩
+
+theorem closed_recvRelease (s : St) (p : Packet) : (recvRelease s p).1.closed = s.closed ∧ (recvRelease s p).1.acks = s.acks := by
+  unfold recvRelease
+  split
+  · rename_i s1 hi
+    unfold icsRecv at hi
+    split at hi
+    · cases hi
+    · split at hi
+      · cases hi
+      · rename_i s2 hc
+        cases hi
+        have h2 : s2.closed = s.closed ∧ s2.acks = s.acks := by
+          unfold icsCredit at hc
+          split at hc
+          · exact closed_sendCoins hc
+          · cases hc; exact ⟨rfl, rfl⟩
+        simp only [if_true]
+        unfold chargeBridgingFee
+        split
+        · exact h2
+        · split
+          · exact h2
+          · exact h2
+  · exact ⟨rfl, rfl⟩
+
+/-- **finalize_when_ack_cannot_be_written** — what `finalizeRollappPacket` does for a received packet
+    whose channel end is CLOSED (`WriteAcknowledgement` fails although the capability resolves):
+    `ibc.OnRecvPacket` has already run for real, so the funds are released exactly as in the normal
+    case (credit minus bridging fee if the transfer succeeds, nothing if it fails); NO acknowledgement
+    is written; the failure is recorded in the packet's `Error`; and the packet is finalized all the
+    same — status FINALIZED under its finalized key, its index entry removed, its release logged, so it
+    can never be finalized (and acknowledged) later. -/
+theorem finalize_when_ack_cannot_be_written (s s' : St) (k : Bytes) (p : Packet)
+    (hp : getPacket s k = some p) (ht : p.ptype = .onRecv) (hc : isClosed s p.chan = true)
+    (hf : finalizePacket s k = .ok s') :
+    s'.acks = s.acks ∧ s'.bal = (recvRelease s p).1.bal ∧
+    getPacket s' (pkey (flipped p)) = some (flipped { p with perr := some .ackClosed }) ∧
+    s'.byAddr = s.byAddr.filter (fun e => !(e.1 == p.target && e.2 == pkey p)) ∧
+    s'.log = s.log ++ [logEntry (recvRelease s p).1 p (some p.rollappId) true] := by
+  have hidx := finalize_removes_own_index_entry s s' k p hp hf
+  have hre : releaseEffect s p = ((recvRelease s p).1, some PErr.ackClosed) := by
+    unfold releaseEffect
+    rw [ht]
+    simp only
+    unfold writeRecvAck isClosed
+    rw [(closed_recvRelease s p).1]
+    unfold isClosed at hc
+    rw [hc]; rfl
+  unfold finalizePacket at hf
+  rw [hp] at hf
+  simp only at hf
+  split at hf
+  · cases hf
+  · unfold updateAfterFinalization at hf
+    split at hf
+    · cases hf
+    · cases hf
+      rw [hre] at hidx ⊢
+      refine ⟨?_, ?_, ?_, hidx, ?_⟩
+      · rw [show ∀ x a b st, (afterPacketStatusUpdated x a b st).acks = x.acks from fun x a b st => by
+          unfold afterPacketStatusUpdated; split <;> rfl]
+        exact (closed_recvRelease s p).2
+      · rw [show ∀ x a b st, (afterPacketStatusUpdated x a b st).bal = x.bal from fun x a b st => by
+          unfold afterPacketStatusUpdated; split <;> rfl]
+        rfl
+      · have e : ∀ (x y : St) (kk : Bytes), y.packets = x.packets → getPacket y kk = getPacket x kk := by
+          intro x y kk hxy; unfold getPacket; rw [hxy]
+        rw [e _ _ _ (frame_afterPacketStatusUpdated _ _ _ _).packets]
+        exact getPacket_setPacket_self _ (flipped (finalizedRecord p (some PErr.ackClosed)))
+      · rw [(frame_afterPacketStatusUpdated _ _ _ _).log]
+        show (recvRelease s p).1.log ++ [logEntry (recvRelease s p).1 p (some p.rollappId) true] = _
+        rw [(frame_recvRelease s p).log]
 
 -- ================================================================== C03 over M-Packets: the hard-fork hook
 -- (delayedack `OnHardFork(rollapp, lastValid)` = `onHardFork s rid lv`; the clauses of C03 that concern packets)
@@ -512,5 +601,21 @@ example : (onHardFork (run forkInit forkOps) [114] 5).receipts = [(0, 1)] ∧ (o
 example : (onHardFork (run forkInit forkOps) [114] 5).restored = [((0, 1), 1)] := by decide
 example : (onHardFork (run forkInit forkOps) [114] 5).byAddr.map (·.1) = [1] ∧ (onHardFork (run forkInit forkOps) [114] 5).orders.length = 1 := by decide
 example : (step (run forkInit forkOps) (.fork [114] 5)).2 = .ok := by decide
+
+/-- the closed-channel history: a delayed transfer becomes final, the channel end is closed, anyone
+    finalizes — the receiver is paid, no acknowledgement exists, the packet records the failure; opening
+    the channel again does not bring the acknowledgement back -/
+def closeOps : List Op :=
+  [ .recv 0 1 5 (cexRecv 1), .addState [114] 10, .finalizeState [114], .chanClose 0,
+    .finalize 2 [114] 5 .onRecv [99, 55] 1, .chanOpen 0, .finalize 2 [114] 5 .onRecv [99, 55] 1 ]
+
+example : getBal (run cexInit closeOps).bal 1 1 = 1100 ∧ (run cexInit closeOps).acks = [] ∧
+    ((run cexInit closeOps).packets.map (fun p => (p.status, p.perr))) = [(.finalized, some .ackClosed)] ∧
+    (run cexInit closeOps).byAddr = [] ∧ (run cexInit closeOps).log.length = 1 := by decide
+example : (step (run cexInit (closeOps.take 6)) (.finalize 2 [114] 5 .onRecv [99, 55] 1)).2 = .err .notFound := by decide
+example : (step (run cexInit (closeOps.take 4)) (.recv 0 2 6 (cexRecv 1))).2 = .recv .closed ∧
+    (step (run cexInit (closeOps.take 4)) (.send 1 0 0 5)).2 = .err .chanClosed ∧
+    (step (run cexInit (closeOps.take 4)) (.ack 0 1 3 true)).2 = .err .chanClosed ∧
+    (step (run cexInit (closeOps.take 4)) (.timeout 0 1 3)).2 = .replay := by decide
 
 end DymVerif.C04
